@@ -36,6 +36,9 @@ type KeySpec struct {
 	// derived from the name, and a non-empty (non-mandatory) extensions block.
 	MaxNameDelta int  `json:"max_name_delta,omitempty"`
 	ExtraExt     bool `json:"extra_ext,omitempty"`
+	// OtherKEM: a key for DHKEM(P-256) - a KEM this library does not implement
+	// (the key list is of the type crypto/tls uses, where such keys are fine).
+	OtherKEM bool `json:"other_kem,omitempty"`
 }
 
 func (k KeySpec) material() (priv, pub, cfg []byte) {
@@ -48,6 +51,13 @@ func (k KeySpec) material() (priv, pub, cfg []byte) {
 		}
 	}
 	priv, pub = echbox.KeyFromSeed(seed)
+	if k.OtherKEM {
+		// config for kem_id 0x0010 with a 65-octet uncompressed point
+		pt := append(append([]byte{4}, pub...), priv...)
+		c := echbox.BuildConfig(k.ID, pt, k.PublicName, k.Suites, byte(min(len(k.PublicName)+16, 255)))
+		c[5], c[6] = 0x00, 0x10
+		return priv, pt, c
+	}
 	if k.OwnEncoder || k.MaxNameDelta != 0 || k.ExtraExt {
 		mnl := byte(min(len(k.PublicName)+16, 255) + k.MaxNameDelta)
 		if k.ExtraExt {
